@@ -33,7 +33,7 @@ INTS = [(IN, 'compat.integer::to_bytes[signed]'), (IN, 'compat.integer::to_bytes
         (IN, 'compat.integer::from_bytes[signed]'), (IN, 'compat.integer::from_bytes[unsigned]')]
 READS = [(ST, 'codec.streaming::readFromStream[complete]'), (ST, 'codec.streaming::readFromStream[partial]'),
          (ST, 'codec.streaming::isEndOfStream[BytesIO]'), (ST, 'codec.streaming::isEndOfStream[generic]'),
-         (ST, 'codec.streaming::peekIntoStream[no-peek]')]
+         (ST, 'codec.streaming::peekIntoStream[no-peek]'), (ST, 'codec.streaming::peekIntoStream[peek]')]
 WRAPPER = [(ST, 'codec.streaming::CachingStreamWrapper.%s' % n) for n in
            ('read', 'peek', 'tell', 'seek[back-to-mark]', 'seek[relative-back]', 'markedPosition.setter')]
 DEC_SIMPLE = [(D, 'ber.decoder::IntegerPayloadDecoder.valueDecoder[complete]'),
@@ -175,6 +175,124 @@ PROPS['C16'] = prop(
     contracts=DEC_SIMPLE[:4], tables=['dispatch'],
     standins=[dict(module='standins.codec_checks', checks='schemaless', bound='IMPLICIT/ANY-free part of U2 x 4 codecs')],
     explanation='tables (complete) + content decoders (proved) + schemaless round trip (bounded)')
+
+CN = 'contracts.constraint'
+CE = 'contracts.cer_encoder'
+import contracts.constraint as _cn
+CONSTRAINTS = [(CN, c.id) for c in _cn.CONTRACTS]
+CER = [(CE, 'cer.encoder::GeneralizedTimeEncoder.encodeValue[no-fraction]'),
+       (CE, 'cer.encoder::UTCTimeEncoder.encodeValue[no-fraction]'), (CE, 'cer.encoder::SetEncoder._tagSortKey')]
+PROPS['C03']['contracts'] = PROPS['C03']['contracts'] + CER
+
+PROPS['C04'] = prop(
+    level_text='Canonical SET order is a function of the outermost tags only (contract on the sort key, proved), framing and '
+               'INTEGER octets are functions of the abstract value (C03 contracts); that the bytes do not depend on the '
+               'construction history (insertion order, explicit defaults, clone, BER variant -> decode, prior read-only uses) '
+               'is a bounded stand-in over U2.',
+    contracts=ENC_FRAMING + INTS[:1] + CER[2:], tables=['dispatch'],
+    standins=[dict(module='standins.object_checks', checks='histories', bound=U2 + ' x 10 construction histories per value')],
+    explanation='sort-key and framing contracts (proved); construction histories (bounded)')
+
+PROPS['C08'] = prop(
+    level_text='Safety obligations (no implicit exception escapes) are generated and discharged for every decoder function '
+               'under contract (tag/length regions, INTEGER/NULL/BOOLEAN payload decoders, read helpers, caching wrapper); '
+               'every explicit raise in the decoder modules names a library error class (decided on the AST and the real '
+               'class graph); termination of the contracted loops by variants. Everything else reachable from decode() is '
+               'covered by an exhaustive/mutational bounded stand-in.',
+    contracts=DEC_REGIONS + DEC_SIMPLE + READS + WRAPPER[:2] + INTS[2:], tables=['errors', 'protocol'],
+    standins=[dict(module='standins.robust_checks', checks='malformed',
+                   bound='all byte strings of length <= 2 (quick) / 3 over 24 structural octets, 1500 / 20000 grammar-shaped '
+                         'strings, single-edit neighbours of 120 / 800 valid encodings; 3 decoders x 19 guiding types + '
+                         'streaming')],
+    explanation='safety/termination obligations of contracted decoder functions (proved) + exhaustive short inputs (bounded)')
+
+PROPS['C10'] = prop(
+    level_text='Constraint evaluation admits exactly the denotation (C14 contracts, proved per class); payload decoders build '
+               'their result through _createComponent (contracts); that every accepted input yields a complete, well-typed, '
+               're-encodable value is a bounded stand-in over mutated encodings.',
+    contracts=CONSTRAINTS + DEC_SIMPLE[:4], tables=['dispatch'],
+    standins=[dict(module='standins.object_checks', checks='accepts-wellformed', bound=U2 + ' x 13 mutations x 2 decoders')],
+    explanation='constraint and payload contracts (proved); accepted => well-formed (bounded)')
+
+PROPS['C12'] = prop(
+    level_text='Frames: `if LOG:` blocks contain no assignment, control flow or consuming stream access (decided on the AST of all '
+               'codec modules); generator consumers only forward underrun markers (D1); the tag caches of the single-item '
+               'decoder keep their invariant on every store (tag region contracts), so suspended decoders sharing the '
+               'singleton see consistent entries. Thread schedules are outside the family (stated limit). Snapshot '
+               'comparison around codec calls, interleaved decoders and logging on/off are a bounded stand-in.',
+    contracts=DEC_REGIONS[2:] + READS[4:], tables=['log-blocks', 'protocol'],
+    standins=[dict(module='standins.object_checks', checks='purity', bound=U2 + ' x (4 encoders, 2 decodes, 3 interleaved streaming decoders, logging on)')],
+    paper=['interleavings of suspended generators commute because all decoder state is in generator locals and the per-call '
+           'stream (frame argument); data-race freedom under threads rests on CPython atomic dict/attribute stores (trusted, '
+           'not proved)'],
+    explanation='frame obligations (structural, complete over the AST) + cache invariant (proved); purity on U2 (bounded)')
+
+PROPS['C14'] = prop(
+    level_text='Per-class step of the induction proved for all values: each _testValue raises ValueConstraintError exactly outside '
+               'its set-theoretic denotation (intersection/union/exclusion for arities 0..3, range, size, single value, '
+               'presence/absence) and AbstractConstraint.__call__ forwards it; structural induction over the tree on paper. '
+               'The funnel (no scalar-producing operation bypasses __init__) and derivation bookkeeping are bounded stand-ins.',
+    contracts=CONSTRAINTS, tables=[],
+    standins=[dict(module='standins.constraint_checks', checks='constraint-trees,funnel,derivation',
+                   bound='600 (quick) / 6000 random trees of depth <= 3 / 4 x 13 ints / 8 strings; 20 operations x boundary operands; 8 derivation chains')],
+    explanation='constraint evaluation contracts (proved) + trees/funnel/derivation (bounded)')
+
+PROPS['C17'] = prop(
+    level_text='Dispatch tables of the native codec are complete (every type has an entry, complete evaluation); the value '
+               'conversions themselves are string/float based and outside the modelled subset, so the round trip and the '
+               'python-value + schema equality are decided only on a bounded universe (labelled bounded).',
+    contracts=[], tables=['dispatch'],
+    standins=[dict(module='standins.object_checks', checks='native', bound=U2 + ' x native round trip + 3 codecs with python value trees')],
+    explanation='table completeness (complete evaluation); conversions on U2 (bounded)')
+
+PROPS['C18'] = prop(
+    level_text='Capturing: reads consume exactly the requested octets and the ANY decoder back-tracks only to the mark set at '
+               'the element start (read/wrapper contracts). Resolution by governing value and wrapping on encode are '
+               'bounded stand-ins over 4 codecs x 3 taggings x 3 containers x 2 governor kinds x 4 inner values.',
+    contracts=READS[:2] + WRAPPER[3:4], tables=['dispatch'],
+    standins=[dict(module='standins.opentype_checks', checks='open-types', bound='4 codecs x 3 taggings x {field, SET OF, SET member} x {INTEGER, OID} governors x 4 inner values incl. constructed x {on, off, override}')],
+    explanation='stream contracts (proved); open type resolution (bounded)')
+
+PROPS['C19'] = prop(
+    level_text='The object model of univ.py (dynamic attributes, MRO, sparse dict storage) is outside the modelled subset '
+               '(A-OBJ); the property is decided on bounded operation histories against list/dict models, with the DER '
+               'encoding of the model compared after every step (labelled bounded).',
+    contracts=[], tables=[],
+    standins=[dict(module='standins.container_checks', checks='containers',
+                   bound='1500 (quick) / 20000 random operation sequences of length <= 5 / 6 x {typed / untyped SEQUENCE OF, SEQUENCE, CHOICE}; 8 scalar types x 17 uses of a valueless object')],
+    explanation='operation histories against python models (bounded)')
+
+PROPS['C20'] = prop(
+    level_text='The canonical encoders refuse exactly the time strings that are not in UTC / carry a comma / fall outside the '
+               'length window (contract on the real TimeEncoderMixIn.encodeValue for fraction-free strings, proved for all '
+               'strings); datetime conversion and fraction canonicalisation are string/datetime based (outside the '
+               'modelled subset) and decided on the quantifier grid as bounded stand-ins.',
+    contracts=CER[:2], tables=[],
+    standins=[dict(module='standins.time_checks', checks='datetime-roundtrip,x680-instant,cer-canonical',
+                   bound='4 (quick) / 8 dates x 6 microsecond values x 14 offsets x 2 types; 3 x 14 x 5 grammar strings')],
+    explanation='UTC-refusal contract (proved); conversions on the grid (bounded)')
+
+UN = 'contracts.univ_native'
+CHOICE = [(UN, 'type.univ::Choice.setComponentByPosition'), (UN, 'type.univ::Choice.clear'), (UN, 'type.univ::Choice.reset')]
+PROPS['C19']['contracts'] = CHOICE
+PROPS['C19']['level_text'] = ('CHOICE holds at most one alternative: Choice.setComponentByPosition / clear / reset preserve the '
+                              'single-alternative invariant and a refused assignment changes nothing (contracts on the real '
+                              'methods, proved over all selections). The rest of the object model of univ.py (dynamic attributes, '
+                              'sparse dict storage) is outside the modelled subset (A-OBJ) and is decided on bounded operation '
+                              'histories against list/dict models, DER of the model compared after every step (labelled bounded).')
+PROPS['C17']['contracts'] = [(UN, 'native.encoder::SetEncoder.encode')]
+PROPS['C17']['level_text'] = ('native SetEncoder/SequenceEncoder.encode: the python mapping holds exactly the present members, '
+                              'absent OPTIONAL members are left out (contract, proved); dispatch tables of the native codec are '
+                              'complete (complete evaluation); scalar conversions are string/float based and outside the '
+                              'modelled subset, so the round trip and python-value + schema equality are bounded stand-ins.')
+PROPS['C18']['contracts'] = PROPS['C18']['contracts'] + [(UN, 'ber.decoder::AnyPayloadDecoder.valueDecoder[untagged,complete]')]
+PROPS['C18']['level_text'] = ('Capturing is proved: an untagged ANY captures exactly the octets from the element start (the mark) '
+                              'to the end of its contents and consumes exactly the element (contract on the real '
+                              'AnyPayloadDecoder.valueDecoder over the stream model; reads and back-tracking by the '
+                              'read/wrapper contracts). Resolution by governing value and wrapping on encode are bounded '
+                              'stand-ins over 4 codecs x 3 taggings x 3 containers x 2 governor kinds x 4 inner values.')
+PROPS['C04']['contracts'] = PROPS['C04']['contracts'] + CHOICE[:1]
+PROPS['C11']['contracts'] = PROPS['C11']['contracts'] + [(UN, 'ber.decoder::AnyPayloadDecoder.valueDecoder[untagged,complete]')]
 
 for _p in list(PROPS):
     NOT_CLAIMED.pop(_p, None)
